@@ -2275,8 +2275,10 @@ mod fields_ext {
                 }
                 _ => {}
             }
+            // For a single field the whole listed type is the type to convert, even if it happens to
+            // be a tuple type (`#[from((i32, i32))] struct Wrapper(Point)`): never destructure it.
             Ok(match ty {
-                syn::Type::Tuple(syn::TypeTuple { elems, .. }) => {
+                syn::Type::Tuple(syn::TypeTuple { elems, .. }) if self.len() != 1 => {
                     Either::Left(elems.iter())
                 }
                 other => Either::Right(iter::once(other)),
